@@ -72,10 +72,13 @@ def to_geojson(
     :func:`.write_geojson`
     """
     return geojson.FeatureCollection(_dumpable_iterator(
-        geojson.Feature(geometry=polygon, properties={
-            'linear_index': i,
-            'index': dataset.ems.wind_index(i),
-        })
+        geojson.Feature(
+            # geojson rounds coordinates to 6 decimal places unless a precision is given
+            geometry=geojson.Polygon(polygon.__geo_interface__['coordinates'], precision=17),
+            properties={
+                'linear_index': i,
+                'index': dataset.ems.wind_index(i),
+            })
         for i, polygon in enumerate(dataset.ems.polygons)
         if polygon is not None
     ))
